@@ -519,19 +519,19 @@ def safe(s):
 
 # property -> (harness, [(mode, cases, opts)]) used for the gcov reach evidence in the thorough tier
 COV_PLAN = {
-    'C01': ('h_exact', [('c01', 120, dict(max_n=24))]),
-    'C02': ('h_exact', [('c02', 120, dict(max_n=24))]),
+    'C01': ('h_exact', [('c01', 120, dict(max_n=24, large=0))]),
+    'C02': ('h_exact', [('c02', 120, dict(max_n=24, large=0))]),
     'C03': ('h_sched', [('c03real', 40, dict(max_n=18, schedules=1))]),
     'C05': ('h_approx', [('c05', 150, dict(max_n=22))]),
     'C06': ('h_approx', [('c06', 150, dict(max_n=22))]),
     'C08': ('h_exact', [('c08', 3, dict(min_n=30, max_n=60, variants_per_xform=1))]),
     'C09': ('h_exact', [('c09', 100, dict(max_n=20))]),
     'C10': ('h_dimacs', [('c10', 2000, {})]),
-    'C12': ('h_parts', [('c12', 60, dict(max_n=14))]),
-    'C13': ('h_parts', [('c13', 300, dict(max_n=60))]),
-    'C14': ('h_parts', [('c14', 80, dict(max_n=20))]),
+    'C12': ('h_parts', [('c12', 60, dict(max_n=14, large=0))]),
+    'C13': ('h_parts', [('c13', 300, dict(max_n=60, large=0))]),
+    'C14': ('h_parts', [('c14', 80, dict(max_n=20, large=0))]),
     'C15': ('h_approx', [('c15', 200, dict(max_n=24))]),
-    'C16': ('h_parts', [('c16', 500, dict(max_n=30))]),
+    'C16': ('h_parts', [('c16', 500, dict(max_n=30, large=0))]),
     'C17': ('h_vec', [('c17', 500, {})]),
     'C18': ('h_vec', [('c18gcd', 140, {}), ('c18inv', 60, {}), ('c18prime', 5, dict(blocks=4, cpp_blocks=1)), ('c18vec', 300, {})]),
 }
